@@ -37,14 +37,14 @@ Definition mismatches (cs : list case) : list N :=
                            bad digest / signature / amount, missing members, undecodable or oversized or
                            truncated frames, failing reads, peer ids without an address) and the call
                            returned without an error: the exchange did not end with an error or a reset
-     not-serving           end to end: after the hostile exchange an honest peer could not complete its
+     not-serving           end to end (and discovery with stalled workers: a later list is not processed): after the hostile exchange an honest peer could not complete its
                            handshake and be registered: the node no longer serves other peers
      data-race             end to end under the race detector (thorough tier): an unsynchronised access in
                            repository code was reported although the process survived (result class 3); races
                            on a Go map are observed as a crash instead (the runtime aborts on them)
    Result class 2 (not classified by the driver) fires none of these. *)
 Definition is_e2e (i : entry_input) : bool :=
-  match i with EE2EInbound _ _ | EE2EOutbound _ _ | EE2EStress _ => true | _ => false end.
+  match i with EE2EInbound _ _ | EE2EOutbound _ _ | EE2EStress _ | EPeersListStalled _ _ => true | _ => false end.
 
 Definition violation (c : case) : option string :=
   match obs c with
